@@ -5,6 +5,13 @@
 // the nearly antipodal family q2 = normalised(-q1 + 10^-j e), j = 1..15; t in {-1/4, 0, 1/8, ..., 1, 5/4}.
 // Keys for squad/spline: all 4-tuples of the group (keys at t = 0, 1), and all 5-tuples over a 10-element key set
 // for the tangent-continuity check.
+// Added (audit2 S1): the nearly EQUAL family q2 = normalised(q1 + 10^-j e), j = 1..15 (4-D angles from 0.1 down to
+// below one ulp, i.e. on both sides of sinx_over_x's switch at x^2 < eps), and the small parameters
+// t, 1-t in {2^-30, 2^-20, 2^-12, 2^-8} on every pair, so that t*a and (1-t)*a straddle sqrt(eps) for generic a as well;
+// sites carry the suffixes ".nearly-equal" / ".tiny-t". Same reference, same tolerances (kappa = 1 for a <= pi/2).
+// Added (audit2 S5): squad and spline at interior t against their documentation: squad(q1,qa,qb,q2,t) =
+// slerp(slerp(q1,q2,t), slerp(qa,qb,t), 2t(1-t)), spline(q0..q3,t) = squad(q1, intermediate(q0,q1,q2), intermediate(q1,q2,q3), q2, t),
+// intermediate(q0,q1,q2) = q1 exp(-(log(q1^-1 q2) + log(q1^-1 q0))/4), all evaluated in long double (function interior()).
 //
 // Reference (long double, from the definition): a = angle between q1 and q2 as 4-D vectors,
 //   slerp(q1,q2,t) = ( sin((1-t)a) q1 + sin(t a) q2 ) / sin a , normalised.
@@ -24,6 +31,8 @@ using vf::R;
 
 struct Tally
 {
+    long long near_eq = 0, a_lt_sqrt_eps = 0, a_sqrt_eps_to_003 = 0, ta_lt_sqrt_eps = 0, tiny_t = 0, interior = 0, interior_skipped = 0;
+    double    w_interior = 0;
     long long states = 0, trans = 0, a_small = 0, a_gt90 = 0, a_near_pi = 0, equal = 0, t_outside = 0, t_end = 0, t_inner = 0, short_flip = 0, short_keep = 0,
               short_orth = 0, keys = 0, tangent = 0, tangent_skipped = 0;
     double w_slerp = 0, w_angle = 0, w_short = 0, w_keys = 0, w_tan_ratio = 0, w_tan_conv = 0;
@@ -32,6 +41,8 @@ struct Tally
         states += o.states; trans += o.trans; a_small += o.a_small; a_gt90 += o.a_gt90; a_near_pi += o.a_near_pi; equal += o.equal; t_outside += o.t_outside;
         t_end += o.t_end; t_inner += o.t_inner; short_flip += o.short_flip; short_keep += o.short_keep; short_orth += o.short_orth; keys += o.keys;
         tangent += o.tangent; tangent_skipped += o.tangent_skipped;
+        near_eq += o.near_eq; a_lt_sqrt_eps += o.a_lt_sqrt_eps; a_sqrt_eps_to_003 += o.a_sqrt_eps_to_003; ta_lt_sqrt_eps += o.ta_lt_sqrt_eps; tiny_t += o.tiny_t;
+        interior += o.interior; interior_skipped += o.interior_skipped; w_interior = std::max (w_interior, o.w_interior);
         w_slerp = std::max (w_slerp, o.w_slerp); w_angle = std::max (w_angle, o.w_angle); w_short = std::max (w_short, o.w_short);
         w_keys = std::max (w_keys, o.w_keys); w_tan_ratio = std::max (w_tan_ratio, o.w_tan_ratio); w_tan_conv = std::max (w_tan_conv, o.w_tan_conv);
     }
@@ -80,8 +91,10 @@ template <class T> std::vector<Qin<T>> quat_set (bool thorough)
 }
 
 static const LD TS[11] = {-0.25L, 0, 0.125L, 0.25L, 0.375L, 0.5L, 0.625L, 0.75L, 0.875L, 1, 1.25L};
+// small parameters (exact in float): t and 1-t
+static const LD TSMALL[8] = {ldexpl (1, -30), ldexpl (1, -20), ldexpl (1, -12), ldexpl (1, -8), 1 - ldexpl (1, -8), 1 - ldexpl (1, -12), 1 - ldexpl (1, -20), 1 - ldexpl (1, -24)};
 
-template <class T> void check_slerp (Tally& tl, const Quat<T>& q1, const Quat<T>& q2, const std::string& in, long long idot, bool idot_known)
+template <class T> void check_slerp (Tally& tl, const Quat<T>& q1, const Quat<T>& q2, const std::string& in, long long idot, bool idot_known, const char* sfx = "", bool small_t = false)
 {
     const LD e  = EPS<T> ();
     const Q  r1 = toQ (q1), r2 = toQ (q2);
@@ -90,28 +103,34 @@ template <class T> void check_slerp (Tally& tl, const Quat<T>& q1, const Quat<T>
     if (a == 0) ++tl.equal; else if (a < 1e-3L) ++tl.a_small;
     if (a > PI / 2) ++tl.a_gt90;
     if (a > PI - 1e-3L) ++tl.a_near_pi;
-    for (int ti = 0; ti < 11; ++ti)
+    const LD rte = sqrtl (e); // sinx_over_x switches at x^2 < eps
+    if (a > 0 && a < rte) ++tl.a_lt_sqrt_eps; else if (a >= rte && a < 0.03L) ++tl.a_sqrt_eps_to_003;
+    const int nt = small_t ? 8 : 11;
+    const std::string sx = small_t ? std::string (sfx) + ".tiny-t" : std::string (sfx);
+    for (int ti = 0; ti < nt; ++ti)
     {
-        const LD t = TS[ti];
+        const LD t = small_t ? TSMALL[ti] : TS[ti];
+        if (small_t) ++tl.tiny_t;
+        if (a >= rte && (fabsl (t) * a < rte || fabsl (1 - t) * a < rte) && t != 0 && t != 1) ++tl.ta_lt_sqrt_eps;
         (t < 0 || t > 1 ? tl.t_outside : (t == 0 || t == 1) ? tl.t_end : tl.t_inner)++;
         Quat<T> s  = slerp (q1, q2, (T) t);
         Q       sr = toQ (s), er = slerp_ref (r1, r2, t);
         ++tl.trans;
         auto desc = [&] () { return in + " t=" + vf::fmt ((double) t) + " [4-D angle " + vf::fmt ((double) a) + "]"; };
-        if (!qfinite (sr)) { R ().fail (site<T> ("slerp", "finite"), desc (), qs (er), qs (s)); continue; }
+        if (!qfinite (sr)) { R ().fail (site<T> ("slerp", "finite" + sx), desc (), qs (er), qs (s)); continue; }
         LD nd = fabsl (qnorm (sr) - 1);
-        if (!(nd <= 4 * e)) R ().fail (site<T> ("slerp", "unit"), desc (), "|q| = 1 to 4 eps", qs (s));
+        if (!(nd <= 4 * e)) R ().fail (site<T> ("slerp", "unit" + sx), desc (), "|q| = 1 to 4 eps", qs (s));
         LD d = qmaxdiff (sr, er);
         mx (tl.w_slerp, d / (e * kp));
-        if (!(d <= 32 * e * kp)) R ().fail (site<T> ("slerp", "=sin((1-t)a)q1+sin(ta)q2)/sin(a)"), desc (), qs (er) + " to 32 eps*kappa, kappa=" + vf::fmt ((double) kp), qs (s));
-        if (t == 0 && !(qmaxdiff (sr, qunit (r1)) <= 8 * e)) R ().fail (site<T> ("slerp", "t=0-gives-q1"), desc (), qs (r1) + " to 8 eps", qs (s));
-        if (t == 1 && !(qmaxdiff (sr, qunit (r2)) <= 8 * e)) R ().fail (site<T> ("slerp", "t=1-gives-q2"), desc (), qs (r2) + " to 8 eps", qs (s));
+        if (!(d <= 32 * e * kp)) R ().fail (site<T> ("slerp", "=sin((1-t)a)q1+sin(ta)q2)/sin(a)" + sx), desc (), qs (er) + " to 32 eps*kappa, kappa=" + vf::fmt ((double) kp), qs (s));
+        if (t == 0 && !(qmaxdiff (sr, qunit (r1)) <= 8 * e)) R ().fail (site<T> ("slerp", "t=0-gives-q1" + sx), desc (), qs (r1) + " to 8 eps", qs (s));
+        if (t == 1 && !(qmaxdiff (sr, qunit (r2)) <= 8 * e)) R ().fail (site<T> ("slerp", "t=1-gives-q2" + sx), desc (), qs (r2) + " to 8 eps", qs (s));
         // the 4-D angle advances linearly in t
         LD a1 = qangle (r1, sr), a2 = qangle (r2, sr);
         LD d1 = fabsl (a1 - fold (t * a)), d2 = fabsl (a2 - fold ((1 - t) * a));
         mx (tl.w_angle, std::max (d1, d2) / (e * kp));
         if (!(d1 <= 64 * e * kp && d2 <= 64 * e * kp))
-            R ().fail (site<T> ("slerp", "4-D-angle-linear-in-t"), desc (), "angle(q1,r)=" + vf::fmt (fold (t * a)) + " angle(q2,r)=" + vf::fmt (fold ((1 - t) * a)) + " to 64 eps*kappa",
+            R ().fail (site<T> ("slerp", "4-D-angle-linear-in-t" + sx), desc (), "angle(q1,r)=" + vf::fmt (fold (t * a)) + " angle(q2,r)=" + vf::fmt (fold ((1 - t) * a)) + " to 64 eps*kappa",
                        vf::fmt (a1) + ", " + vf::fmt (a2));
         // slerpShortestArc: never the long way round: for t in [0,1] the result stays within 90 degrees of q1,
         // and it is the slerp towards whichever of +-q2 is closer to q1
@@ -124,12 +143,12 @@ template <class T> void check_slerp (Tally& tl, const Quat<T>& q1, const Quat<T>
             Q  ep = slerp_ref (r1, r2, t), em = slerp_ref (r1, qscale (r2, -1), t);
             LD dp = qmaxdiff (hr, ep), dm = qmaxdiff (hr, em);
             bool ambiguous = idot_known ? (idot == 0) : (fabsl (dt) <= 8 * e);
-            if (ti == 5) { if (ambiguous) ++tl.short_orth; else if (dt < 0) ++tl.short_flip; else ++tl.short_keep; }
+            if (t == 0.5L) { if (ambiguous) ++tl.short_orth; else if (dt < 0) ++tl.short_flip; else ++tl.short_keep; }
             LD dd = ambiguous ? std::min (dp, dm) : (dt < 0 ? dm : dp);
             mx (tl.w_short, dd / e);
             if (!qfinite (hr) || !(qdot (r1, hr) >= -32 * e))
-                R ().fail (site<T> ("slerpShortestArc", "within-90-degrees-of-q1"), desc (), "q1.result >= 0", qs (h) + " dot=" + vf::fmt (qdot (r1, hr)));
-            if (!(dd <= 32 * e)) R ().fail (site<T> ("slerpShortestArc", "=slerp-towards-nearer-of-+-q2"), desc (), qs (dt < 0 ? em : ep) + " to 32 eps", qs (h));
+                R ().fail (site<T> ("slerpShortestArc", "within-90-degrees-of-q1" + sx), desc (), "q1.result >= 0", qs (h) + " dot=" + vf::fmt (qdot (r1, hr)));
+            if (!(dd <= 32 * e)) R ().fail (site<T> ("slerpShortestArc", "=slerp-towards-nearer-of-+-q2" + sx), desc (), qs (dt < 0 ? em : ep) + " to 32 eps", qs (h));
         }
     }
 }
@@ -149,6 +168,7 @@ template <class T> void pairs (Tally& total, bool thorough)
                 for (int k = 0; k < 4; ++k) { dot += c1[k] * c2[k]; n1 += c1[k] * c1[k]; n2 += c2[k] * c2[k]; }
                 if (dot < 0 && dot * dot == n1 * n2) continue; // q2 == -q1 (as directions): excluded by the documentation of slerp
                 check_slerp<T> (tl, S[a].q, S[b].q, "q1=" + S[a].name + " q2=" + S[b].name, dot, true);
+                check_slerp<T> (tl, S[a].q, S[b].q, "q1=" + S[a].name + " q2=" + S[b].name, dot, true, "", true);
             }
         std::lock_guard<std::mutex> g (mu);
         total.merge (tl);
@@ -168,6 +188,21 @@ template <class T> void pairs (Tally& total, bool thorough)
                 Q s = qadd (toQ (q1), toQ (q2));
                 if (qnorm (s) == 0) continue;
                 check_slerp<T> (tl, q1, q2, "q1=" + S[a].name + " q2=normalized(-q1+1e-" + std::to_string (j) + "*" + i4 (E[ei]) + ")=" + qs (q2), 0, false);
+            }
+    // nearly equal: q2 = normalised(q1 + 10^-j e): 4-D angle ~ 10^-j |e_perp|, down to below one ulp (then q2 == q1, class slerp.q1=q2)
+    for (size_t a = 0; a < n; a += (thorough ? 1 : 3))
+        for (int ei = 0; ei < 3; ++ei)
+            for (int j = 1; j <= 15; ++j)
+            {
+                T d = (T) powl (10.0L, -j);
+                const Quat<T>& q1 = S[a].q;
+                Quat<T> raw (q1.r + d * (T) E[ei][0], q1.v.x + d * (T) E[ei][1], q1.v.y + d * (T) E[ei][2], q1.v.z + d * (T) E[ei][3]);
+                Quat<T> q2 = raw.normalized ();
+                ++tl.near_eq;
+                const std::string in = "q1=" + S[a].name + " q2=normalized(q1+1e-" + std::to_string (j) + "*" + i4 (E[ei]) + ")=" + qs (q2);
+                check_slerp<T> (tl, q1, q2, in, 1, true, ".nearly-equal");
+                check_slerp<T> (tl, q1, q2, in, 1, true, ".nearly-equal", true);
+                check_slerp<T> (tl, q2, q1, in + " [swapped]", 1, true, ".nearly-equal");
             }
     total.merge (tl);
 }
@@ -209,6 +244,110 @@ template <class T> void keys (Tally& total)
             if (!(d1 <= 16 * e)) R ().fail (site<T> ("spline", "t=1-passes-through-q2"), desc (), qs (q[2]) + " to 16 eps", qs (s1));
             if (!(c0 <= 16 * e)) R ().fail (site<T> ("squad", "t=0-passes-through-q1"), desc (), qs (q[0]) + " to 16 eps", qs (u0));
             if (!(c1 <= 16 * e)) R ().fail (site<T> ("squad", "t=1-passes-through-q2"), desc (), qs (q[3]) + " to 16 eps", qs (u1));
+        }
+        std::lock_guard<std::mutex> g (mu);
+        total.merge (tl);
+    });
+}
+
+// ---- squad / spline / intermediate at interior parameters against their documentation (audit2 S5) -----------------------------
+// Reference in long double. log of a unit quaternion (w, v) = (0, v/|v| * atan2(|v|, w)); exp of a pure quaternion (0, u) =
+// (cos|u|, u sin|u|/|u|). Tolerances, a priori (eps of T; kappa_i = 1/sin of the arc of the i-th slerp when it exceeds pi/2):
+//   intermediate: the two products 8 eps each, log: d(theta/sin theta) = d(w) (sin th - th cos th)/sin^3 th <= 6.7 d(w) for
+//     th <= 3pi/4 (keys further apart are skipped: log is excluded near w = -1 by the property), d(w) ~ 4 eps plus the norm
+//     defect of the product (cond <= 5.7, c10_unit.cpp) -> <= 30 eps per log, (sum)/4 -> 15 eps, exp 4 eps, product 8, normalise 3:
+//     bound 48 eps.
+//   squad with given corner quaternions: r1, r2 within 32 eps kappa_1,2 (bound of check_slerp), the outer slerp 32 eps kappa_3 and it
+//     propagates the errors of r1, r2 with a factor <= kappa_3: <= kappa_3 (32 + 32 kappa_1 + 32 kappa_2) <= 96 kappa_max^2: bound 128 eps kappa_max^2.
+//   spline: qa, qb carry 48 eps each into r2: r2 within (32 + 2*48) kappa_2 eps: <= kappa_3 (32 + 32 kappa_1 + 128 kappa_2) <= 192 kappa_max^2:
+//     bound 256 eps kappa_max^2. Tuples with kappa_max > 4 are skipped (counted).
+inline Q qinv (const Q& a) { return qscale (qconj (a), 1 / qdot (a, a)); }
+inline Q qlog_ref (const Q& a)
+{
+    LD vl = sqrtl (a.x * a.x + a.y * a.y + a.z * a.z);
+    if (vl == 0) return Q{0, 0, 0, 0};
+    LD th = atan2l (vl, a.w), k = th / vl;
+    return Q{0, a.x * k, a.y * k, a.z * k};
+}
+inline Q qexp_ref (const Q& a)
+{
+    LD th = sqrtl (a.x * a.x + a.y * a.y + a.z * a.z);
+    LD k  = th > 0 ? sinl (th) / th : 1;
+    return Q{cosl (th), a.x * k, a.y * k, a.z * k};
+}
+inline Q intermediate_ref (const Q& q0, const Q& q1, const Q& q2)
+{
+    Q i1 = qinv (q1);
+    Q l  = qadd (qlog_ref (qmul (i1, q2)), qlog_ref (qmul (i1, q0)));
+    return qunit (qmul (q1, qexp_ref (qscale (l, -0.25L))));
+}
+
+template <class T> void interior (Tally& total)
+{
+    const LD  e = EPS<T> ();
+    const int KI[10][4] = {{2, 0, 0, 0}, {1, 1, 1, 1}, {1, 1, -1, -1}, {0, 2, 0, 0}, {1, -1, 1, -1}, {2, 1, 0, 0}, {2, 0, 1, 1}, {1, 2, -1, 0}, {2, -1, 0, 1}, {1, 0, 0, 2}};
+    std::vector<Quat<T>> K;
+    for (auto& c : KI) K.push_back (Quat<T> ((T) c[0], (T) c[1], (T) c[2], (T) c[3]).normalized ());
+    const uint64_t n = K.size (), N = n * n * n * n;
+    const LD       TI[5] = {0.125L, 0.25L, 0.5L, 0.75L, 0.875L};
+    std::mutex     mu;
+    vf::parallel_chunks (N, n * n, [&] (uint64_t lo, uint64_t hi, unsigned) {
+        Tally tl;
+        for (uint64_t idx = lo; idx < hi; ++idx)
+        {
+            int k[4];
+            ex::decode (idx, (unsigned) n, 4, k);
+            const Quat<T>&q0 = K[k[0]], &q1 = K[k[1]], &q2 = K[k[2]], &q3 = K[k[3]];
+            const Q r0 = toQ (q0), r1 = toQ (q1), r2 = toQ (q2), r3 = toQ (q3);
+            auto desc = [&] () { return "keys " + qs (q0) + " " + qs (q1) + " " + qs (q2) + " " + qs (q3); };
+            // (a) squad with the four keys as the quadrangle (q1, qa, qb, q2) := (q0, q1, q2, q3): needs only the slerp preconditions
+            {
+                LD a12 = qangle (r0, r3), aab = qangle (r1, r2);
+                bool ok = a12 < PI - 0.25L && aab < PI - 0.25L;
+                for (int ti = 0; ti < 5 && ok; ++ti)
+                {
+                    LD t = TI[ti];
+                    Q  s1 = slerp_ref (r0, r3, t), s2 = slerp_ref (r1, r2, t);
+                    LD a3 = qangle (s1, s2), km = std::max (std::max (kappa (a12), kappa (aab)), kappa (a3));
+                    if (km > 4) { ++tl.interior_skipped; continue; }
+                    Q ref = slerp_ref (s1, s2, 2 * t * (1 - t));
+                    Quat<T> g = squad (q0, q1, q2, q3, (T) t);
+                    ++tl.trans; ++tl.states; ++tl.interior;
+                    LD d = qmaxdiff (toQ (g), ref), tol = 128 * e * km * km;
+                    if (!qfinite (toQ (g))) d = 1e30L;
+                    mx (tl.w_interior, d / tol);
+                    if (!(d <= tol)) R ().fail (site<T> ("squad", "interior=slerp(slerp(q1,q2,t),slerp(qa,qb,t),2t(1-t))"), "(q1,qa,qb,q2)=" + desc () + " t=" + vf::fmt ((double) t), qs (ref) + " to 128 eps kappa^2, kappa=" + vf::fmt ((double) km), qs (g));
+                }
+            }
+            // (b) intermediate and spline: consecutive keys distinct and at most 3pi/4 apart
+            bool ok = true;
+            for (int i = 0; i < 3 && ok; ++i)
+                if (k[i] == k[i + 1] || qangle (toQ (K[k[i]]), toQ (K[k[i + 1]])) > 3 * PI / 4) ok = false;
+            if (!ok) { ++tl.interior_skipped; continue; }
+            Q ia = intermediate_ref (r0, r1, r2), ib = intermediate_ref (r1, r2, r3);
+            if (k[3] == 0) // once per (q0,q1,q2)
+            {
+                Quat<T> ga = intermediate (q0, q1, q2);
+                ++tl.trans;
+                LD d = qmaxdiff (toQ (ga), ia);
+                if (!qfinite (toQ (ga))) d = 1e30L;
+                if (!(d <= 48 * e)) R ().fail (site<T> ("intermediate", "=q1*exp(-(log(q1^-1*q2)+log(q1^-1*q0))/4)"), "(q0,q1,q2)=" + qs (q0) + " " + qs (q1) + " " + qs (q2), qs (ia) + " to 48 eps", qs (ga));
+            }
+            LD a12 = qangle (r1, r2), aab = qangle (ia, ib);
+            for (int ti = 0; ti < 5; ++ti)
+            {
+                LD t = TI[ti];
+                Q  s1 = slerp_ref (r1, r2, t), s2 = slerp_ref (ia, ib, t);
+                LD a3 = qangle (s1, s2), km = std::max (std::max (kappa (a12), kappa (aab)), kappa (a3));
+                if (!(aab < PI - 0.25L) || km > 4) { ++tl.interior_skipped; continue; }
+                Q ref = slerp_ref (s1, s2, 2 * t * (1 - t));
+                Quat<T> g = spline (q0, q1, q2, q3, (T) t);
+                ++tl.trans; ++tl.states; ++tl.interior;
+                LD d = qmaxdiff (toQ (g), ref), tol = 256 * e * km * km;
+                if (!qfinite (toQ (g))) d = 1e30L;
+                mx (tl.w_interior, d / tol);
+                if (!(d <= tol)) R ().fail (site<T> ("spline", "interior=squad(q1,intermediate(q0,q1,q2),intermediate(q1,q2,q3),q2,t)"), desc () + " t=" + vf::fmt ((double) t), qs (ref) + " to 256 eps kappa^2, kappa=" + vf::fmt ((double) km), qs (g));
+            }
         }
         std::lock_guard<std::mutex> g (mu);
         total.merge (tl);
@@ -296,6 +435,8 @@ void run_slerp ()
     pairs<double> (tl, th);
     keys<float> (tl);
     keys<double> (tl);
+    interior<float> (tl);
+    interior<double> (tl);
     tangents<float> (tl, th);
     tangents<double> (tl, th);
     R ().add ("states", tl.states); R ().add ("transitions", tl.trans); R ().add ("evaluations", tl.states);
@@ -308,6 +449,15 @@ void run_slerp ()
     R ().cls ("shortestArc.q1.q2<0(flip)", tl.short_flip);
     R ().cls ("shortestArc.q1.q2>0.generic", tl.short_keep);
     R ().cls ("shortestArc.q1.q2=0(either)", tl.short_orth);
+    R ().cls ("slerp.nearly-equal-pair(10^-j)", tl.near_eq);
+    R ().cls ("slerp.angle-in-(0,sqrt-eps)", tl.a_lt_sqrt_eps);
+    R ().cls ("slerp.angle-in-[sqrt-eps,0.03)", tl.a_sqrt_eps_to_003);
+    R ().cls ("slerp.angle-in-(0,1e-3)", tl.a_small);
+    R ().cls ("slerp.t*a-or-(1-t)*a-below-sqrt-eps<=a", tl.ta_lt_sqrt_eps);
+    R ().cls ("slerp.tiny-t-or-1-t(2^-8..2^-30)", tl.tiny_t);
+    R ().cls ("squad-spline.interior-t", tl.interior);
+    R ().add ("interior_tuples_skipped_ill_conditioned_or_repeated_key", tl.interior_skipped);
+    R ().note_max ("squad/spline interior: worst error / a-priori bound (128 resp. 256 eps kappa^2)", tl.w_interior);
     R ().cls ("spline.key-tuples", tl.keys);
     R ().cls ("spline.tangent-joins", tl.tangent);
     R ().add ("tangent_tuples_skipped_ill_conditioned_or_repeated_key", tl.tangent_skipped);
@@ -320,7 +470,7 @@ void run_slerp ()
     R ().sample ("slerp(group(2,0,0,0)/2, group(-1,1,1,1)/2, t): 4-D angle 2pi/3, kappa 1.15");
     R ().sample ("slerpShortestArc(q1, q2 with q1.q2 < 0, 1/2) == slerp(q1, -q2, 1/2)");
     R ().stage_done (std::string ("slerp/slerpShortestArc on all ordered pairs of ") + (th ? "648" : "104") +
-                     " unit quaternions (group + normalised lattice) x 11 values of t, nearly antipodal family j=1..15; squad/spline keys on 24^4 group tuples; "
+                     " unit quaternions (group + normalised lattice) x 11 values of t, nearly antipodal and nearly equal families j=1..15, tiny t / 1-t on every pair; squad/spline keys on 24^4 group tuples; squad/spline/intermediate at 5 interior t on 10^4 normalised-lattice key tuples; "
                      "tangent continuity on " + std::string (th ? "16^5" : "10^5") + " key 5-tuples; float and double");
 }
 
